@@ -151,6 +151,13 @@ func handleHTTP1ServerStream(b *bufio.Reader, progress *api.ReadProgress, tcpID 
 	if err != nil {
 		return
 	}
+	// An interim response (100 Continue, 102 Processing, 103 Early Hints) is not the answer to
+	// the request: the final response follows it. Counting it paired the request with the
+	// interim status and shifted every later exchange of the connection by one. 101 Switching
+	// Protocols is final.
+	if res.StatusCode >= 100 && res.StatusCode < 200 && res.StatusCode != http.StatusSwitchingProtocols {
+		return
+	}
 	counterPair.Lock()
 	counterPair.Response++
 	responseCounter := counterPair.Response
